@@ -144,6 +144,29 @@ def ModuleSpec.edit (m : ModuleSpec) : SpecEdit → ModuleSpec
 def Diagram.editModule (d : Diagram) (n : Nat) (e : SpecEdit) : Diagram :=
   { modules := d.modules.map (fun m => if m.name == n then m.edit e else m), wires := d.wires }
 
+/-! `WiringDiagram.modules` (a dict), `WiringDiagram.wires` (a list) and `DiagramExecutor.diagram` are public
+    attributes; callers edit them directly (examples/33 removes a wire from `diagram.wires`).  Each edit yields
+    another diagram, and `execute` reads the diagram afresh on every call. -/
+
+/-- `diagram.wires.remove(w)`: the first occurrence goes (an absent wire is a ValueError, nothing changes) -/
+def Diagram.removeWire (d : Diagram) (w : Wire) : Diagram := { modules := d.modules, wires := d.wires.erase w }
+
+/-- `diagram.wires[i] = w` (an index past the end is an IndexError, nothing changes) -/
+def Diagram.setWire (d : Diagram) (i : Nat) (w : Wire) : Diagram := { modules := d.modules, wires := d.wires.set i w }
+
+/-- `diagram.wires.reverse()` -/
+def Diagram.reverseWires (d : Diagram) : Diagram := { modules := d.modules, wires := d.wires.reverse }
+
+/-- `del diagram.modules[n]`: the wires stay as they are (and may dangle now) -/
+def Diagram.delModule (d : Diagram) (n : Nat) : Diagram :=
+  { modules := d.modules.filter (fun m => m.name != n), wires := d.wires }
+
+/-- `diagram.modules[m.name] = m`: an existing key keeps its position in the dict, a new key goes to the end -/
+def Diagram.setModule (d : Diagram) (m : ModuleSpec) : Diagram :=
+  if (d.findMod m.name).isSome then
+    { modules := d.modules.map (fun x => if x.name == m.name then m else x), wires := d.wires }
+  else { modules := d.modules ++ [m], wires := d.wires }
+
 /-- `required_capabilities`: `required |= module.capabilities` over the modules (a set; here a list
     without repetitions, compared as a set by the harness) -/
 def Diagram.requiredCaps (d : Diagram) : List Nat :=
